@@ -96,11 +96,33 @@ impl ValidationReport {
     pub fn process(
         engine: &Engine, config: &Config, initial: bool,
     ) -> Result<(Self, Metrics), RunFailed> {
+        #[cfg(feature = "verif-hooks")]
+        let forced = crate::verif::forced_run_outcome();
+        #[cfg(feature = "verif-hooks")]
+        match forced {
+            Some(crate::verif::Outcome::Retry) => {
+                return Err(RunFailed::retry())
+            }
+            Some(crate::verif::Outcome::Fatal) => {
+                return Err(RunFailed::fatal())
+            }
+            _ => { }
+        }
         let report = Self::new(config);
         let mut run = engine.start(&report, initial)?;
         run.process()?;
         run.cleanup()?;
         let metrics = run.done();
+        #[cfg(feature = "verif-hooks")]
+        match forced {
+            Some(crate::verif::Outcome::RetryLate) => {
+                return Err(RunFailed::retry())
+            }
+            Some(crate::verif::Outcome::FatalLate) => {
+                return Err(RunFailed::fatal())
+            }
+            _ => { }
+        }
         Ok((report, metrics))
     }
 
